@@ -955,6 +955,16 @@ func (c *EvalCtx) call(x *Expr) (*Val, error) {
 			}
 		}
 		return nil, fmt.Errorf("addr: no such local in memory")
+	case "boxed":
+		// the concrete value inside an interface value, where the conversion happened on this path
+		a, err := c.eval(x.Args[0])
+		if err != nil {
+			return nil, err
+		}
+		if a.Box == nil {
+			return nil, fmt.Errorf("boxed(%s): the dynamic value of the interface is not known here", x.Args[0].S)
+		}
+		return a.Box, nil
 	case "cat2":
 		// raw binary concatenation term (no flattening): used to state associativity instances
 		a, err := c.evalAs(x.Args[0], sStr)
